@@ -129,6 +129,7 @@ func genDispatch(c *ctx) string {
 	b.WriteString("def argsInPlace : Bool := " + argsInPlaceForm(c) + "\n")
 	b.WriteString("def argsSortedOnce : Bool := " + argsSortedOnceForm(c) + "\n")
 	b.WriteString("def condByIdentity : Bool := " + condByIdentityForm(c) + "\n")
+	b.WriteString("def anonAmongOthers : Bool := " + anonAmongOthersForm(c) + "\n")
 	b.WriteString("def reflectOptionalRefused : Bool := " + reflectOptionalForm(c) + "\n")
 	b.WriteString("def inputDefaultsRaw : Bool := " + inputValidateForm(c) + "\n")
 	b.WriteString("def listNotCoerced : Bool := " + lnc + "\n")
@@ -302,6 +303,25 @@ func condByIdentityForm(c *ctx) string {
 		return "false"
 	}
 	return unknown("fragment type condition test", c.pos(ri))
+}
+
+// anonAmongOthersForm (D96): does Executable.Validate refuse a document in which an operation without a name
+// stands next to other operations?
+func anonAmongOthersForm(c *ctx) string {
+	fd := c.funcs["Executable.Validate"]
+	if fd == nil {
+		return unknown("Executable.Validate", "executable.go")
+	}
+	t := regexp.MustCompile(`(?m)//.*$`).ReplaceAllString(c.src(fd.Body), "")
+	t = regexp.MustCompile(`\s+`).ReplaceAllString(t, " ")
+	const tail = `names := make([]string, 0, len(ex.Ops)) for name := range ex.Ops { names = append(names, name) } sort.Strings(names) for _, name := range names { errs = append(errs, ex.Ops[name].Validate(root)...) } names = names[:0] for name := range ex.Fragments { names = append(names, name) } sort.Strings(names) for _, name := range names { errs = append(errs, ex.Fragments[name].Validate(root)...) } errs = append(errs, ex.validateFragmentCycles()...) return }`
+	switch t {
+	case "{ " + tail:
+		return "true"
+	case `{ if op := ex.Ops[""]; op != nil && 1 < len(ex.Ops) { errs = append(errs, valError(op.line, op.col, "an operation without a name must be the only operation")) } ` + tail:
+		return "false"
+	}
+	return unknown("Executable.Validate body", c.pos(fd))
 }
 
 // reflectOptionalForm (D94): is an optional argument that is left out (or null) refused by checkReflectArgs
